@@ -18,30 +18,30 @@ noncomputable section
 namespace PyR
 open Py
 
-def pi : ℝ := Real.pi
-def sin : ℝ → ℝ := Real.sin
-def cos : ℝ → ℝ := Real.cos
-def tan : ℝ → ℝ := Real.tan
-def asin : ℝ → ℝ := Real.arcsin
-def acos : ℝ → ℝ := Real.arccos
-def atan : ℝ → ℝ := Real.arctan
-def atan2 (y x : ℝ) : ℝ := Complex.arg ⟨x, y⟩
-def sinh : ℝ → ℝ := Real.sinh
-def cosh : ℝ → ℝ := Real.cosh
-def exp : ℝ → ℝ := Real.exp
-def log : ℝ → ℝ := Real.log
-def sqrt : ℝ → ℝ := Real.sqrt
-def absf (x : ℝ) : ℝ := |x|
-def radians (x : ℝ) : ℝ := x * (Real.pi / 180)
-def degrees (x : ℝ) : ℝ := x * (180 / Real.pi)
-def pown (x : ℝ) (n : ℕ) : ℝ := x ^ n
-def powz (x : ℝ) (z : ℤ) : ℝ := x ^ z
-def powr (x y : ℝ) : ℝ := x ^ y
+abbrev pi : ℝ := Real.pi
+abbrev sin : ℝ → ℝ := Real.sin
+abbrev cos : ℝ → ℝ := Real.cos
+abbrev tan : ℝ → ℝ := Real.tan
+abbrev asin : ℝ → ℝ := Real.arcsin
+abbrev acos : ℝ → ℝ := Real.arccos
+abbrev atan : ℝ → ℝ := Real.arctan
+abbrev atan2 (y x : ℝ) : ℝ := Complex.arg ⟨x, y⟩
+abbrev sinh : ℝ → ℝ := Real.sinh
+abbrev cosh : ℝ → ℝ := Real.cosh
+abbrev exp : ℝ → ℝ := Real.exp
+abbrev log : ℝ → ℝ := Real.log
+abbrev sqrt : ℝ → ℝ := Real.sqrt
+abbrev absf (x : ℝ) : ℝ := |x|
+abbrev radians (x : ℝ) : ℝ := x * (Real.pi / 180)
+abbrev degrees (x : ℝ) : ℝ := x * (180 / Real.pi)
+abbrev pown (x : ℝ) (n : ℕ) : ℝ := x ^ n
+abbrev powz (x : ℝ) (z : ℤ) : ℝ := x ^ z
+abbrev powr (x y : ℝ) : ℝ := x ^ y
 /-- decimal literal `m / 10^e` -/
-def dec (m : ℕ) (e : ℕ) : ℝ := (m : ℝ) / 10 ^ e
+abbrev dec (m : ℕ) (e : ℕ) : ℝ := (m : ℝ) / 10 ^ e
 /-- Python `int(x)`: truncation toward zero -/
 def trunc (x : ℝ) : ℝ := if x < 0 then (⌈x⌉ : ℝ) else (⌊x⌋ : ℝ)
-def pyfloat (x : ℝ) : ℝ := x
+abbrev pyfloat (x : ℝ) : ℝ := x
 /-- round-half-even to an integer -/
 def roundHalfEven (x : ℝ) : ℤ :=
   if Int.fract x = 1 / 2 then (if Even ⌊x⌋ then ⌊x⌋ else ⌊x⌋ + 1) else round x
